@@ -20,6 +20,7 @@ RULES = {
     "C15.R8": "AWQPackedTensor.pack/unpack delegate to the module packer/unpacker selected by the recorded packing with the recorded reorder flag, nothing re-positions the unpacked codes, and every reconstruction inside the class carries (packing, reorder) over unchanged",
     "C15.R9": "re-wrapping handlers: a QBitsTensor handler that rebuilds `t.__class__(...)` from `op(t._data)` is only registered for ops under which AWQPackedTensor stays packed (its __torch_dispatch__ keeps detach / _to_copy / to); otherwise the optimised constructor formats scale and zero-point a second time",
     "C15.R10": "the grouping helpers the optimised constructor and dequantizer rely on (ungroup before packing, group after unpacking) are inverse layouts (the rule of C02.R4)",
+    "C15.R14": "the standard representation the AWQ tensors must agree with is exact: scale * (codes - zeropoint) with the difference formed in a type that holds it, on every path of the QBits dequantizer (rule C02.R3 re-checked)",
     "C15.R13": "the AWQ representation survives flatten / unflatten: each AWQ tensor class is rebuilt as itself (a subclass with its own constructor does not inherit a reader that names its base) and its reader inverts its writer field by field (an Enum member is written by name / value and read through the Enum)",
     "C15.R11": "the packers widen before they shift: every `<<` in pack / pack_v2 applies to a value already cast to a 16/32/64-bit integer (a 4-bit code shifted by 4 in an int8 tensor - what v1 unpack returns - turns negative and sign-extends over the neighbouring lanes)",
     "C15.R12": "the packing functions are pure: no module-level state is written or consulted by pack / unpack / pack_v2 / unpack_v2 / reverse_awq_order (a cached index makes the result depend on the widths seen before)",
@@ -108,6 +109,11 @@ def run(chk):
             else:
                 chk.unknown("C15.R13", site, detail)
     chk.floor("C15.R13", len(awq_classes), 2, "AWQ tensor classes")
+    if chk.pid == "C15":
+        # "the same values as the standard representation": the reference side of that comparison is the QBits dequantizer
+        from ..report import AliasedCheck
+        from . import c02
+        c02.dequantizer(AliasedCheck(chk, {"C02.R3": "C15.R14"}))
     widen_before_shift(chk, awq_mi)
     pure_layout(chk, awq_mi)
     from .c04_layout import group_ungroup
